@@ -1,27 +1,33 @@
 #!/bin/sh
 # Must-fail corpus: every selftest/mutants/<name>.patch is applied to a scratch copy of /repo's working tree;
 # the check named in <name>.expect ("<property> <obligation-substring>") must report a VIOLATION naming it.
-# usage: tools/selftest.sh [name-substring]      exit 0 iff every mutant is caught
+# usage: tools/selftest.sh [name-substring]      exit 0 iff every mutant is caught   (SELFTEST_JOBS=n at a time, default 4)
 cd /verif || exit 2
-fail=0; n=0
-for p in selftest/mutants/*.patch; do
+one() {
+  p="$1"
   name=$(basename "$p" .patch)
-  case "$name" in *"$1"*) ;; *) continue;; esac
   exp="selftest/mutants/$name.expect"
   prop=$(cut -d' ' -f1 "$exp"); want=$(cut -d' ' -f2- "$exp")
   D=$(mktemp -d /tmp/govc-self-XXXXXX)
   rsync -a --exclude .git /repo/ "$D/repo/"
   mkdir -p "$D/verif/contracts"; cp -r contracts/trusted "$D/verif/contracts/"; cp known_findings.json "$D/verif/"; cp -r bounded "$D/verif/" 2>/dev/null
-  if ! (cd "$D/repo" && patch -p1 -s < "/verif/$p"); then echo "SELFTEST $name: patch does not apply"; fail=1; rm -rf "$D"; continue; fi
-  if ! (cd "$D/repo" && go build ./... 2>/dev/null); then echo "SELFTEST $name: mutant does not build"; fail=1; rm -rf "$D"; continue; fi
+  if ! (cd "$D/repo" && patch -p1 -s < "/verif/$p"); then echo "SELFTEST $name: patch does not apply"; rm -rf "$D"; return 1; fi
+  if ! (cd "$D/repo" && go build ./... 2>/dev/null); then echo "SELFTEST $name: mutant does not build"; rm -rf "$D"; return 1; fi
   out=$(GOVC_REPO="$D/repo" GOVC_VERIF="$D/verif" bin/govc check -prop "$prop" 2>&1)
-  n=$((n+1))
+  rc=0
   if echo "$out" | grep "^VIOLATION property=$prop " | grep -q -- "$want"; then
     echo "SELFTEST $name: caught ($prop $want)"
   else
-    echo "SELFTEST $name: MISSED ($prop $want)"; echo "$out" | tail -5; fail=1
+    echo "SELFTEST $name: MISSED ($prop $want)"; echo "$out" | tail -5; rc=1
   fi
   rm -rf "$D"
-done
-echo "selftest: $n mutants, fail=$fail"
-exit $fail
+  return $rc
+}
+if [ "$1" = "--one" ]; then one "$2"; exit $?; fi
+list=$(for p in selftest/mutants/*.patch; do name=$(basename "$p" .patch); case "$name" in *"$1"*) echo "$p";; esac; done)
+n=$(echo "$list" | grep -c .)
+out=$(echo "$list" | xargs -P "${SELFTEST_JOBS:-4}" -n 1 sh tools/selftest.sh --one)
+echo "$out" | sort
+bad=$(echo "$out" | grep -c "MISSED\|does not")
+echo "selftest: $n mutants, fail=$bad"
+[ "$bad" -eq 0 ]
